@@ -7,6 +7,7 @@
 From Coq Require Import List Arith Bool ZArith.
 From LV Require Pos.MetaSpan.
 From LV Require Import Inter.Heap Inter.IDriver Inter.Heap_proofs Inter.IDriver_proofs Inter.ICheck Gen.InterHoles.
+From LV Require Import Gen.LalrHoles LR.DriverGen Inter.IGen Inter.IGen_proofs.
 Import ListNotations.
 
 (* Feeding the tokens one at a time through InteractiveParser.feed_token and then feed_eof() is
@@ -109,6 +110,56 @@ Proof.
   destruct o as [| | i [|] | | | |]; simpl in *; auto. destruct ho; discriminate.
 Qed.
 Print Assumptions C13_default_copies_are_deep.
+
+(* ---- Round 12: tie by regeneration.  translator/gen_lalr.py pins the skeletons of ParserState.feed_token / copy,
+   InteractiveParser.feed_token / copy / accepts / iter_parse / exhaust_lexer / feed_eof / resume_parse / __eq__,
+   ImmutableInteractiveParser (all four methods, and that it defines no others), LexerThread.__copy__ and
+   LexerState.__copy__, and regenerates what the model decides with: every condition and slice bound of feed_token,
+   the is_end flag, and per constructor argument of each copy whether it is shared, copied or deep-copied
+   (Gen/LalrHoles.v).  Inter/IGen.v is the skeleton over these regenerated terms. *)
+
+(* the control of feed_token (state stack, outcome) of the model is the regenerated control on every table that
+   never shifts a terminal into the end state - checked by no_end_shift_b on every table lark builds in the streams *)
+Theorem C13_feed_control_regenerated T k ss ty is_end :
+  no_end_shift T ->
+  gcfeed k T (rev ss) ty is_end = (rev (fst (cfeed k T ss ty is_end)), snd (cfeed k T ss ty is_end)).
+Proof. exact (fun NE => gcfeed_eq_cfeed T NE k ss ty is_end). Qed.
+Print Assumptions C13_feed_control_regenerated.
+
+Theorem C13_feed_control_regenerated_table acts gotos rules s0 e0 :
+  no_end_shift_b acts e0 = true -> no_end_shift (mk_table acts gotos rules s0 e0).
+Proof. exact (no_end_shift_b_sound acts gotos rules s0 e0). Qed.
+Print Assumptions C13_feed_control_regenerated_table.
+
+(* the values handed to the callback and the values left (lastn / droplast in hfeed and pfeed) are the regenerated
+   slices value_stack[-size:] / del value_stack[-size:] under the regenerated `if size:` guard; the is_end flag of
+   InteractiveParser.feed_token (hifeed / pifeed: ty =? END) is the regenerated comparison *)
+Theorem C13_value_slices_regenerated (is_end : bool) (n e : nat) (vs : list value) (ty : nat) :
+  gvalues_popped is_end n e vs = lastn n vs /\ gvalues_left is_end n e vs = droplast n vs /\
+  ip_feed_is_end (Z.of_nat ty) (Z.of_nat END) = (ty =? END).
+Proof. exact (conj (gvalues_popped_eq is_end n e vs) (conj (gvalues_left_eq is_end n e vs) (ip_is_end_eq ty))). Qed.
+Print Assumptions C13_value_slices_regenerated.
+
+(* InteractiveParser.copy assembled from the regenerated field descriptors is the model's copy_parser; no copy shares
+   its state stack, its value-stack list or its lexer position with the original; deepcopy_values=True is a deepcopy
+   of the value stack; both translators read the same defaults; accepts() uses shallow trial cursors *)
+Theorem C13_copy_regenerated deep H p :
+  gcopy_parser (im_meta impl_now) deep H p = Some (copy_parser impl_now deep H p) /\
+  (forall d, fresh (ps_copy_state_stack d) = true) /\ (forall d, fresh (ps_copy_value_stack d) = true) /\
+  ps_copy_value_stack true = Deep /\ ps_copy_value_stack false = Shallow /\
+  fresh ip_copy_lexer_thread = true /\ fresh lt_copy_state = true /\ fresh ls_copy_line_ctr = true /\
+  ip_copy_default = interactive_copy_default /\ ip_accepts_trial_deep = false /\ im_deep impl_now = ip_copy_default.
+Proof.
+  exact (conj (gcopy_eq_copy deep H p)
+    (match copy_shape with
+     | conj a (conj b (conj c (conj d (conj e (conj f (conj g _)))))) =>
+       conj a (conj b (conj c (conj d (conj e (conj f (conj g
+         (match copy_defaults_agree with
+          | conj u (conj _ (conj _ (conj x y))) => conj u (conj x y)
+          end)))))))
+     end)).
+Qed.
+Print Assumptions C13_copy_regenerated.
 
 (* ---------------------------------------------------------------------------------------------------
    Why the default must be deep.  lark's table and callbacks for
@@ -235,3 +286,16 @@ Proof.
   - apply (mk_table_wf _ _ _ _ _ s t).
   - apply (mk_table_wf _ _ _ _ _ s t).
 Qed.
+
+(* non-vacuity of the regenerated control: on lark's table of the aliasing witness the regenerated control shifts,
+   reduces through the in-place rule and accepts exactly as the model does, and the table passes no_end_shift_b *)
+Example C13_example_regenerated :
+  no_end_shift_b [(0, [(1, Shift 1); (0, Reduce 0)]); (1, [(1, Reduce 1); (0, Reduce 1)]); (2, [(1, Shift 4)]);
+                  (3, []); (4, [(1, Reduce 2); (0, Reduce 2)])] 3 = true /\
+  gcfeed 50 wit_table [2] 1 false = ([2; 4], KShift) /\
+  gcfeed 50 wit_table [2; 4] 1 false = ([2; 0; 1], KShift) /\
+  gcfeed 50 wit_table [2; 0; 1] 0 true = ([2; 3], KResult) /\
+  gcfeed 50 wit_table [2] 0 true = ([2], KError) /\
+  gvalues_popped false 2 3 [VNone; VTok 1 1; VTok 1 2] = [VTok 1 1; VTok 1 2] /\
+  gvalues_popped false 0 3 [VNone; VTok 1 1] = [] /\ gvalues_left false 0 3 [VNone; VTok 1 1] = [VNone; VTok 1 1].
+Proof. vm_compute. repeat split; reflexivity. Qed.
